@@ -198,18 +198,24 @@ def parse_dump(tokens, pos):
     return state, pos
 
 
-def run_real_bash(chk, cases):
+def run_real_bash(chk, cases, subshell=()):
     """cases: list of (names, text).  One bash process, the daemon's way of reading and evaluating:
-    `read -r -N <bytes>` in the C locale, `IFS=$'\\0'`, `eval`.  Returns a list of state | Err."""
+    `read -r -N <bytes>` in the C locale, `IFS=$'\\0'`, `eval`.  Cases whose index is in `subshell`
+    run in a subshell (texts that may do more than assign); the others run in the main shell and the
+    variables are unset afterwards (a fork costs ~30 ms here).  Returns a list of state | Err."""
     d = chk.scratch / "bash"
     d.mkdir(exist_ok=True)
     lines = ["cd " + str(d)]
+    clean = "unset -v __l __r __e " + " ".join(NAMES)
     for i, (names, text) in enumerate(cases):
         data = text.encode("utf-8")
         (d / f"c{i}.txt").write_bytes(data)
-        lines.append(
-            f"( read -r -N {len(data)} __l < c{i}.txt; __r=$?; IFS=$'\\0'; eval \"${{__l}}\"; __e=$?; IFS=$' \\t\\n'; "
-            f"printf 'C\\0%s\\0%s\\0%s\\0' {i} \"$__r\" \"$__e\"; {dump_code(names)} ) </dev/null 2>>err.log")
+        body = (f"read -r -N {len(data)} __l < c{i}.txt; __r=$?; IFS=$'\\0'; eval \"${{__l}}\"; __e=$?; "
+                f"IFS=$' \\t\\n'; printf 'C\\0%s\\0%s\\0%s\\0' {i} \"$__r\" \"$__e\"; {dump_code(names)}")
+        if i in subshell:
+            lines.append(f"( {body} ) </dev/null 2>>err.log")
+        else:
+            lines.append(f"{{ {body}; }} </dev/null 2>>err.log; {clean}")
     (d / "run.sh").write_text("\n".join(lines) + "\n")
     r = subprocess.run(["timeout", "300", "env", "-i", "PATH=/usr/bin:/bin", "bash", str(d / "run.sh")],
                        capture_output=True, cwd=d)
@@ -359,8 +365,38 @@ class Daemon:
             signal.setitimer(signal.ITIMER_REAL, 0)
             signal.signal(signal.SIGALRM, old)
 
-    def transfer(self, env, ro_unused, via_file, dumpfile):
-        """process_ebuild; send_env; dump; alive; shutdown_daemon.  Returns state | Err(what)."""
+    def _eval(self, code):
+        """run our own bash through the (ASCII) inline channel"""
+        self.ebp.write(f"start_receiving_env bytes {len(code.encode())}\n{code}", append_newline=False)
+        return self.ebp.expect("env_received", flush=True)
+
+    def open_session(self):
+        def f():
+            self.ebp.write("process_ebuild verif_c31")
+            return True
+        return self._guarded(f)
+
+    def close_session(self):
+        """leave the phase loop; the main loop must answer"""
+        def f():
+            self.ebp.write("shutdown_daemon")
+            if self.ebp.read().strip() != "phases succeeded":
+                return Err("desync-end")
+            if not self.ebp.is_responsive:
+                return Err("desync-mainloop")
+            return True
+        return self._guarded(f)
+
+    def _guarded(self, f, secs=30):
+        try:
+            return self.guard(secs, f)
+        except Timeout:
+            return Err("timeout")
+        except BaseException as e:  # noqa: BLE001
+            return Err("exception-" + type(e).__name__)
+
+    def transfer(self, env, via_file, dumpfile):
+        """inside a session: send_env; dump; alive; unset.  Returns state | Err(what)."""
         ebp = self.ebp
         names = [k for k in env if k != MARKER]
         tmpdir = None
@@ -369,31 +405,20 @@ class Daemon:
             os.makedirs(tmpdir, exist_ok=True)
 
         def steps():
-            ebp.write("process_ebuild verif_c31")
             if not ebp.send_env(env, tmpdir=tmpdir):
                 return Err("send_env-refused")
-            code = "{ " + dump_code(names) + "; } > " + str(dumpfile)
-            ebp.write(f"start_receiving_env bytes {len(code.encode())}\n{code}", append_newline=False)
-            if not ebp.expect("env_received", flush=True):
+            if not self._eval("{ " + dump_code(names) + "; } > " + str(dumpfile)):
                 return Err("desync-after-transfer")
             ebp.write("alive")
             if not ebp.expect("yep!", flush=True):
                 return Err("desync-alive")
-            ebp.write("shutdown_daemon")
-            if ebp.read().strip() != "phases succeeded":
-                return Err("desync-end")
-            if not ebp.is_responsive:
-                return Err("desync-mainloop")
+            if names and not self._eval("unset -v " + " ".join(names)):
+                return Err("desync-unset")
             return None
 
-        try:
-            if dumpfile.exists():
-                dumpfile.unlink()
-            r = self.guard(20, steps)
-        except Timeout:
-            r = Err("timeout")
-        except BaseException as e:  # noqa: BLE001
-            r = Err("exception-" + type(e).__name__)
+        if dumpfile.exists():
+            dumpfile.unlink()
+        r = self._guarded(steps)
         if r is not None:
             return r
         toks = dumpfile.read_bytes().split(b"\0")
@@ -432,6 +457,7 @@ def main(chk: Check):
              "non-exported marker with assorted whitespace, readonly names; separate malformed stream (bad "
              "first character, empty key, wrong types, NUL); non-trivial = an environment with a scalar "
              "that needs the $'..' form or a list element containing \" $ ` or \\")
+    t_start = time.time()
     ok = chk.build(["C31/Prop_C31.vo"])
     if ok:
         chk.check_assumptions("C31/Prop_C31.v")
@@ -439,7 +465,7 @@ def main(chk: Check):
     chk.check_fingerprint(ANCHORS)
 
     timing = chk.cov.setdefault("timing_s", {})
-    tlast = [time.time()]
+    tlast = [t_start]
 
     def lap(name):
         now = time.time()
@@ -454,7 +480,7 @@ def main(chk: Check):
     for f in sorted((VERIF / "corpus" / "C31").glob("*.json")):
         d = json.loads(f.read_text())
         envs.append(({k: (v if isinstance(v, str) else list(v)) for k, v in d["env"].items()}, d.get("ro", [])))
-    n_valid, n_bad = chk.n(420, 4000), chk.n(80, 600)
+    n_valid, n_bad = chk.n(260, 4000), chk.n(60, 600)
     for _ in range(n_valid):
         envs.append(gen_env(rng))
     bad = [gen_bad_env(rng) for _ in range(n_bad)]
@@ -481,7 +507,7 @@ def main(chk: Check):
     frame_cases, frame_meta = [], []
     xdir = chk.scratch / "framefile"
     xdir.mkdir(exist_ok=True)
-    for env, ro, res in gen_meta[: chk.n(160, 1200)]:
+    for env, ro, res in gen_meta[: chk.n(70, 1200)]:
         if isinstance(res, Err):
             continue
 
@@ -516,13 +542,14 @@ def main(chk: Check):
             continue
         bash_in.append(([k for k in env if k != MARKER and in_domain({k: ""})], res,
                         "impl" if in_domain(env) else "impl-offdomain"))
-    bash_in = bash_in[: chk.n(300, 3000)]
-    for _ in range(chk.n(260, 3000)):
+    bash_in = bash_in[: chk.n(160, 3000)]
+    for _ in range(chk.n(200, 3000)):
         names, text = gen_fragment_text(rng)
         bash_in.append((names, text, "hand"))
     for t in MALFORMED:
         bash_in.append((["A", "B"], t, "malformed"))
-    real = run_real_bash(chk, [(n, t) for n, t, _ in bash_in])
+    real = run_real_bash(chk, [(n, t) for n, t, _ in bash_in],
+                         subshell={i for i, b in enumerate(bash_in) if b[2] == "malformed"})
     bash_cases = [(cpair(clist([cstr(k) for k in n], "str"), cstr(t)), r) for (n, t, _), r in zip(bash_in, real)]
     chk.count("bash", len(bash_cases))
     chk.cov["bash_real_errors"] = sum(1 for r in real if isinstance(r, Err))
@@ -531,7 +558,7 @@ def main(chk: Check):
     lap("bash")
     # ------------------------------------------------------------------ e2e (real daemon)
     e2e_cases, e2e_meta, py_bad = [], [], []
-    n_e2e = chk.n(50, 400)
+    n_e2e = chk.n(44, 400)
     dm = Daemon(chk)
     e2e_note = None
     try:
@@ -553,10 +580,20 @@ def main(chk: Check):
                   ({"A": "x y", "B": "v", MARKER: "B"}, [])]
         todo = probes + [pool[i] for i in sorted(rng.sample(range(len(pool)), min(len(pool), n_e2e)))]
         failures = 0
+        per_session = 25
+        in_session = 0
         for j, (env, _ro) in enumerate(todo):
             env = {k: v for k, v in env.items() if k not in dro}
             via_file = (j % 2 == 1)
-            r = dm.transfer(env, dro, via_file, chk.scratch / "dump.bin")
+            if in_session == 0:
+                dm.open_session()
+            r = dm.transfer(env, via_file, chk.scratch / "dump.bin")
+            in_session += 1
+            if not isinstance(r, Err) and (in_session >= per_session or j == len(todo) - 1):
+                c = dm.close_session()      # the main loop must still be in step
+                in_session = 0
+                if isinstance(c, Err):
+                    r = c
             e2e_cases.append((c_gen_input(env, dro), r))
             e2e_meta.append((env, via_file, r))
             want = expected_state(env, dro)
@@ -566,6 +603,7 @@ def main(chk: Check):
                 chk.nontrivial("e2e" + key_of(env, via_file))
             if isinstance(r, Err):
                 failures += 1
+                in_session = 0
                 dm.stop(force=True)
                 if failures >= 3:
                     e2e_note = "e2e stream stopped after 3 failed transfers"
@@ -590,19 +628,27 @@ def main(chk: Check):
     spec_bad = {"gen": [], "frame": [], "e2e": []}
     model_bad = {}
     if ok:
-        r = chk.coq_eval("gen", IMPORTS, "gen_input", gen_cases,
-                         ["mismatches run_gen cases", "where_ (fun i r => negb (spec_gen_ok i r)) cases"], shard=150)
-        if r is not None:
-            model_bad["gen"] = r[0]
-            spec_bad["gen"] = r[1]
-        r = chk.coq_eval("frame", IMPORTS, "str * str", frame_cases,
-                         ["mismatches run_frame2 cases", "where_ (fun i r => negb (spec_frame_val i r)) cases"],
-                         shard=80)
-        if r is not None:
-            model_bad["frame"] = r[0]
-            spec_bad["frame"] = r[1]
-        r = chk.coq_eval("bash", IMPORTS, "list str * str", bash_cases,
-                         ["where_ bash_differs cases", "where_ bash_outside cases"], shard=150)
+        import concurrent.futures as cf
+        jobs = {
+            "gen": ("gen_input", gen_cases,
+                    ["mismatches run_gen cases", "where_ (fun i r => negb (spec_gen_ok i r)) cases"], 200),
+            "frame": ("str * str", frame_cases,
+                      ["mismatches run_frame2 cases", "where_ (fun i r => negb (spec_frame_val i r)) cases"], 120),
+            "bash": ("list str * str", bash_cases, ["where_ bash_differs cases", "where_ bash_outside cases"], 200),
+        }
+        if e2e_cases:
+            jobs["e2e"] = ("gen_input", e2e_cases,
+                           ["mismatches run_e2e cases", "where_ (fun i r => negb (spec_e2e_ok i r)) cases"], 120)
+        with cf.ThreadPoolExecutor(max_workers=4) as ex:
+            futs = {name: ex.submit(chk.coq_eval, name, IMPORTS, ty, cases, evals, shard)
+                    for name, (ty, cases, evals, shard) in jobs.items()}
+            results = {name: f.result() for name, f in futs.items()}
+        for name in ("gen", "frame", "e2e"):
+            r = results.get(name)
+            if r is not None:
+                model_bad[name] = r[0]
+                spec_bad[name] = r[1]
+        r = results.get("bash")
         if r is not None:
             model_bad["bash"] = r[0]
             outside = set(r[1])
@@ -612,13 +658,6 @@ def main(chk: Check):
             chk.cov["bash_impl_texts_outside_fragment"] = len(gen_out)
             hand_in = sum(1 for i, b in enumerate(bash_in) if b[2] == "hand" and i not in outside)
             chk.cov["bash_hand_texts_inside_fragment"] = hand_in
-        if e2e_cases:
-            r = chk.coq_eval("e2e", IMPORTS, "gen_input", e2e_cases,
-                             ["mismatches run_e2e cases", "where_ (fun i r => negb (spec_e2e_ok i r)) cases"],
-                             shard=60)
-            if r is not None:
-                model_bad["e2e"] = r[0]
-                spec_bad["e2e"] = r[1]
 
     lap("coq_eval")
     # ------------------------------------------------------------------ report
